@@ -182,7 +182,10 @@ def run(chk, tier, seed):
                         doc = ["-", "right", "wrong"][(n + 2 * k) % 3]
                         combos.append((POLS[(n + k) % len(POLS)], doc, ["-", "0", "1"][(n + k) % 3] if doc != "-" else "-"))
                     # a user-defined policy of one public rule whose aggregation starts at the given input level (the chains' caches are keyed by it)
-                    combos.append(("RULECAL", "-", ["-", "1", "0", "3"][(n + k) % 4]))
+                    lv = ["-", "1", "0", "3", "255", "250"][(n + k) % 6]
+                    combos.append(("RULECAL", "-", lv))
+                    if lv in ("255", "250"):        # a level the chains cannot be aggregated from (the sum leaves 0..255): asked twice in a row, refused twice
+                        combos.append(("RULECAL", "-", lv))
                     for pol, doc, level in combos:
                         got = U.verify(S, "@%d" % k, pol, doc, level); nver += 1
                         want = fresh_verdict(b0, pol, doc, level)
